@@ -10,9 +10,18 @@
         ManagedAddress that are observable without private keys (account,
         internal, imported) are functions of that identity, so the address
         cache and the address bucket are sets;
-      - account names and block hashes are interned numbers; times are unix
-        seconds ([Z]); heights are [Z] (int32 wrap-around is outside the
-        model); the manager stays unlocked, watch-only accounts do not occur;
+      - account names, block hashes and imported account keys (xpubs) are
+        interned numbers; times are unix seconds ([Z]); heights are [Z] (int32
+        wrap-around is outside the model); the manager itself is not
+        watch-only and stays unlocked.  Accounts are of two kinds, as in the
+        database: default (derived from the wallet's seed) and watch-only
+        (an imported xpub with a master-key fingerprint and an optional
+        address-schema override, [NewAccountWatchingOnly]);
+      - a chained address is identified with (account number, branch, index);
+        its format and fingerprint are those of the account's kind.  (After a
+        rolled-back account creation that was read back - inside K - a later
+        account can reuse the number with another key; the real address then
+        differs.  Such histories are not generated with watch-only accounts.)
       - the database is fault-free (write faults are property C10).
     What IS transcribed branch for branch is WHEN each operation touches
     memory relative to its database writes: eagerly, or in the
@@ -71,7 +80,18 @@ Proof. solve_decision. Defined.
 
 (** ** Database rows *)
 
-Record acct_row := { r_name : N; r_ext : N; r_int : N }.
+(** What a watch-only account row holds beyond a default one
+    ([dbWatchOnlyAccountRow]): the imported account key, the master key
+    fingerprint, an optional address schema (external, internal address type)
+    overriding the scope's.  Address types are waddrmgr.AddressType values. *)
+Record wo := { w_key : N; w_fp : N; w_schema : option (N * N) }.
+Global Instance wo_eq_dec : EqDecision wo.
+Proof. solve_decision. Defined.
+
+Definition script_type : N := 1.     (* waddrmgr.Script *)
+
+(** [r_kind = None]: default account row; [Some w]: watch-only account row. *)
+Record acct_row := { r_name : N; r_ext : N; r_int : N; r_kind : option wo }.
 Global Instance acct_row_eq_dec : EqDecision acct_row.
 Proof. solve_decision. Defined.
 
@@ -88,13 +108,15 @@ Record disk := {
   d_birthday : Z;
   d_bdayblock : option stamp;
   d_bdayverified : bool;
+  d_schema : N * N;              (* scope-schema: external, internal address type of the scope *)
 }.
 
 (** ** Memory *)
 
 (** [accountInfo]: the name, the next indices and the two cached last
     addresses (kept as their indices; index 0 when none was issued yet). *)
-Record acct_info := { ai_name : N; ai_ext : N; ai_int : N; ai_lastext : N; ai_lastint : N }.
+Record acct_info := { ai_name : N; ai_ext : N; ai_int : N; ai_lastext : N; ai_lastint : N;
+                      ai_kind : option wo  (* acctKeyPub / masterKeyFingerprint / addrSchema; None: default account *) }.
 Global Instance acct_info_eq_dec : EqDecision acct_info.
 Proof. solve_decision. Defined.
 
@@ -107,29 +129,29 @@ Record mem := {
 }.
 
 Definition set_d_accts (v : _) (d : disk) : disk :=
-  {| d_accts := v; d_nameidx := d_nameidx d; d_ididx := d_ididx d; d_lastacct := d_lastacct d; d_addrs := d_addrs d; d_used := d_used d; d_synced := d_synced d; d_hashes := d_hashes d; d_start := d_start d; d_birthday := d_birthday d; d_bdayblock := d_bdayblock d; d_bdayverified := d_bdayverified d |}.
+  {| d_accts := v; d_nameidx := d_nameidx d; d_ididx := d_ididx d; d_lastacct := d_lastacct d; d_addrs := d_addrs d; d_used := d_used d; d_synced := d_synced d; d_hashes := d_hashes d; d_start := d_start d; d_birthday := d_birthday d; d_bdayblock := d_bdayblock d; d_bdayverified := d_bdayverified d; d_schema := d_schema d |}.
 Definition set_d_nameidx (v : _) (d : disk) : disk :=
-  {| d_accts := d_accts d; d_nameidx := v; d_ididx := d_ididx d; d_lastacct := d_lastacct d; d_addrs := d_addrs d; d_used := d_used d; d_synced := d_synced d; d_hashes := d_hashes d; d_start := d_start d; d_birthday := d_birthday d; d_bdayblock := d_bdayblock d; d_bdayverified := d_bdayverified d |}.
+  {| d_accts := d_accts d; d_nameidx := v; d_ididx := d_ididx d; d_lastacct := d_lastacct d; d_addrs := d_addrs d; d_used := d_used d; d_synced := d_synced d; d_hashes := d_hashes d; d_start := d_start d; d_birthday := d_birthday d; d_bdayblock := d_bdayblock d; d_bdayverified := d_bdayverified d; d_schema := d_schema d |}.
 Definition set_d_ididx (v : _) (d : disk) : disk :=
-  {| d_accts := d_accts d; d_nameidx := d_nameidx d; d_ididx := v; d_lastacct := d_lastacct d; d_addrs := d_addrs d; d_used := d_used d; d_synced := d_synced d; d_hashes := d_hashes d; d_start := d_start d; d_birthday := d_birthday d; d_bdayblock := d_bdayblock d; d_bdayverified := d_bdayverified d |}.
+  {| d_accts := d_accts d; d_nameidx := d_nameidx d; d_ididx := v; d_lastacct := d_lastacct d; d_addrs := d_addrs d; d_used := d_used d; d_synced := d_synced d; d_hashes := d_hashes d; d_start := d_start d; d_birthday := d_birthday d; d_bdayblock := d_bdayblock d; d_bdayverified := d_bdayverified d; d_schema := d_schema d |}.
 Definition set_d_lastacct (v : _) (d : disk) : disk :=
-  {| d_accts := d_accts d; d_nameidx := d_nameidx d; d_ididx := d_ididx d; d_lastacct := v; d_addrs := d_addrs d; d_used := d_used d; d_synced := d_synced d; d_hashes := d_hashes d; d_start := d_start d; d_birthday := d_birthday d; d_bdayblock := d_bdayblock d; d_bdayverified := d_bdayverified d |}.
+  {| d_accts := d_accts d; d_nameidx := d_nameidx d; d_ididx := d_ididx d; d_lastacct := v; d_addrs := d_addrs d; d_used := d_used d; d_synced := d_synced d; d_hashes := d_hashes d; d_start := d_start d; d_birthday := d_birthday d; d_bdayblock := d_bdayblock d; d_bdayverified := d_bdayverified d; d_schema := d_schema d |}.
 Definition set_d_addrs (v : _) (d : disk) : disk :=
-  {| d_accts := d_accts d; d_nameidx := d_nameidx d; d_ididx := d_ididx d; d_lastacct := d_lastacct d; d_addrs := v; d_used := d_used d; d_synced := d_synced d; d_hashes := d_hashes d; d_start := d_start d; d_birthday := d_birthday d; d_bdayblock := d_bdayblock d; d_bdayverified := d_bdayverified d |}.
+  {| d_accts := d_accts d; d_nameidx := d_nameidx d; d_ididx := d_ididx d; d_lastacct := d_lastacct d; d_addrs := v; d_used := d_used d; d_synced := d_synced d; d_hashes := d_hashes d; d_start := d_start d; d_birthday := d_birthday d; d_bdayblock := d_bdayblock d; d_bdayverified := d_bdayverified d; d_schema := d_schema d |}.
 Definition set_d_used (v : _) (d : disk) : disk :=
-  {| d_accts := d_accts d; d_nameidx := d_nameidx d; d_ididx := d_ididx d; d_lastacct := d_lastacct d; d_addrs := d_addrs d; d_used := v; d_synced := d_synced d; d_hashes := d_hashes d; d_start := d_start d; d_birthday := d_birthday d; d_bdayblock := d_bdayblock d; d_bdayverified := d_bdayverified d |}.
+  {| d_accts := d_accts d; d_nameidx := d_nameidx d; d_ididx := d_ididx d; d_lastacct := d_lastacct d; d_addrs := d_addrs d; d_used := v; d_synced := d_synced d; d_hashes := d_hashes d; d_start := d_start d; d_birthday := d_birthday d; d_bdayblock := d_bdayblock d; d_bdayverified := d_bdayverified d; d_schema := d_schema d |}.
 Definition set_d_synced (v : _) (d : disk) : disk :=
-  {| d_accts := d_accts d; d_nameidx := d_nameidx d; d_ididx := d_ididx d; d_lastacct := d_lastacct d; d_addrs := d_addrs d; d_used := d_used d; d_synced := v; d_hashes := d_hashes d; d_start := d_start d; d_birthday := d_birthday d; d_bdayblock := d_bdayblock d; d_bdayverified := d_bdayverified d |}.
+  {| d_accts := d_accts d; d_nameidx := d_nameidx d; d_ididx := d_ididx d; d_lastacct := d_lastacct d; d_addrs := d_addrs d; d_used := d_used d; d_synced := v; d_hashes := d_hashes d; d_start := d_start d; d_birthday := d_birthday d; d_bdayblock := d_bdayblock d; d_bdayverified := d_bdayverified d; d_schema := d_schema d |}.
 Definition set_d_hashes (v : _) (d : disk) : disk :=
-  {| d_accts := d_accts d; d_nameidx := d_nameidx d; d_ididx := d_ididx d; d_lastacct := d_lastacct d; d_addrs := d_addrs d; d_used := d_used d; d_synced := d_synced d; d_hashes := v; d_start := d_start d; d_birthday := d_birthday d; d_bdayblock := d_bdayblock d; d_bdayverified := d_bdayverified d |}.
+  {| d_accts := d_accts d; d_nameidx := d_nameidx d; d_ididx := d_ididx d; d_lastacct := d_lastacct d; d_addrs := d_addrs d; d_used := d_used d; d_synced := d_synced d; d_hashes := v; d_start := d_start d; d_birthday := d_birthday d; d_bdayblock := d_bdayblock d; d_bdayverified := d_bdayverified d; d_schema := d_schema d |}.
 Definition set_d_start (v : _) (d : disk) : disk :=
-  {| d_accts := d_accts d; d_nameidx := d_nameidx d; d_ididx := d_ididx d; d_lastacct := d_lastacct d; d_addrs := d_addrs d; d_used := d_used d; d_synced := d_synced d; d_hashes := d_hashes d; d_start := v; d_birthday := d_birthday d; d_bdayblock := d_bdayblock d; d_bdayverified := d_bdayverified d |}.
+  {| d_accts := d_accts d; d_nameidx := d_nameidx d; d_ididx := d_ididx d; d_lastacct := d_lastacct d; d_addrs := d_addrs d; d_used := d_used d; d_synced := d_synced d; d_hashes := d_hashes d; d_start := v; d_birthday := d_birthday d; d_bdayblock := d_bdayblock d; d_bdayverified := d_bdayverified d; d_schema := d_schema d |}.
 Definition set_d_birthday (v : _) (d : disk) : disk :=
-  {| d_accts := d_accts d; d_nameidx := d_nameidx d; d_ididx := d_ididx d; d_lastacct := d_lastacct d; d_addrs := d_addrs d; d_used := d_used d; d_synced := d_synced d; d_hashes := d_hashes d; d_start := d_start d; d_birthday := v; d_bdayblock := d_bdayblock d; d_bdayverified := d_bdayverified d |}.
+  {| d_accts := d_accts d; d_nameidx := d_nameidx d; d_ididx := d_ididx d; d_lastacct := d_lastacct d; d_addrs := d_addrs d; d_used := d_used d; d_synced := d_synced d; d_hashes := d_hashes d; d_start := d_start d; d_birthday := v; d_bdayblock := d_bdayblock d; d_bdayverified := d_bdayverified d; d_schema := d_schema d |}.
 Definition set_d_bdayblock (v : _) (d : disk) : disk :=
-  {| d_accts := d_accts d; d_nameidx := d_nameidx d; d_ididx := d_ididx d; d_lastacct := d_lastacct d; d_addrs := d_addrs d; d_used := d_used d; d_synced := d_synced d; d_hashes := d_hashes d; d_start := d_start d; d_birthday := d_birthday d; d_bdayblock := v; d_bdayverified := d_bdayverified d |}.
+  {| d_accts := d_accts d; d_nameidx := d_nameidx d; d_ididx := d_ididx d; d_lastacct := d_lastacct d; d_addrs := d_addrs d; d_used := d_used d; d_synced := d_synced d; d_hashes := d_hashes d; d_start := d_start d; d_birthday := d_birthday d; d_bdayblock := v; d_bdayverified := d_bdayverified d; d_schema := d_schema d |}.
 Definition set_d_bdayverified (v : _) (d : disk) : disk :=
-  {| d_accts := d_accts d; d_nameidx := d_nameidx d; d_ididx := d_ididx d; d_lastacct := d_lastacct d; d_addrs := d_addrs d; d_used := d_used d; d_synced := d_synced d; d_hashes := d_hashes d; d_start := d_start d; d_birthday := d_birthday d; d_bdayblock := d_bdayblock d; d_bdayverified := v |}.
+  {| d_accts := d_accts d; d_nameidx := d_nameidx d; d_ididx := d_ididx d; d_lastacct := d_lastacct d; d_addrs := d_addrs d; d_used := d_used d; d_synced := d_synced d; d_hashes := d_hashes d; d_start := d_start d; d_birthday := d_birthday d; d_bdayblock := d_bdayblock d; d_bdayverified := v; d_schema := d_schema d |}.
 Definition set_m_accts (v : _) (m : mem) : mem :=
   {| m_accts := v; m_addrs := m_addrs m; m_synced := m_synced m; m_start := m_start m; m_birthday := m_birthday m |}.
 Definition set_m_addrs (v : _) (m : mem) : mem :=
@@ -145,24 +167,24 @@ Definition next_of (ai : acct_info) (b : bool) : N := if b then ai_int ai else a
 Definition last_of (ai : acct_info) (b : bool) : N := if b then ai_lastint ai else ai_lastext ai.
 Definition set_branch (b : bool) (nx la : N) (ai : acct_info) : acct_info :=
   if b then {| ai_name := ai_name ai; ai_ext := ai_ext ai; ai_int := nx;
-               ai_lastext := ai_lastext ai; ai_lastint := la |}
+               ai_lastext := ai_lastext ai; ai_lastint := la; ai_kind := ai_kind ai |}
   else {| ai_name := ai_name ai; ai_ext := nx; ai_int := ai_int ai;
-          ai_lastext := la; ai_lastint := ai_lastint ai |}.
+          ai_lastext := la; ai_lastint := ai_lastint ai; ai_kind := ai_kind ai |}.
 Definition set_name (nm : N) (ai : acct_info) : acct_info :=
   {| ai_name := nm; ai_ext := ai_ext ai; ai_int := ai_int ai;
-     ai_lastext := ai_lastext ai; ai_lastint := ai_lastint ai |}.
+     ai_lastext := ai_lastext ai; ai_lastint := ai_lastint ai; ai_kind := ai_kind ai |}.
 Definition row_next (r : acct_row) (b : bool) : N := if b then r_int r else r_ext r.
 Definition row_set_next (b : bool) (nx : N) (r : acct_row) : acct_row :=
-  if b then {| r_name := r_name r; r_ext := r_ext r; r_int := nx |}
-  else {| r_name := r_name r; r_ext := nx; r_int := r_int r |}.
+  if b then {| r_name := r_name r; r_ext := r_ext r; r_int := nx; r_kind := r_kind r |}
+  else {| r_name := r_name r; r_ext := nx; r_int := r_int r; r_kind := r_kind r |}.
 Definition row_set_name (nm : N) (r : acct_row) : acct_row :=
-  {| r_name := nm; r_ext := r_ext r; r_int := r_int r |}.
+  {| r_name := nm; r_ext := r_ext r; r_int := r_int r; r_kind := r_kind r |}.
 
 (** [loadAccountInfo] builds the cache entry from a row: the last addresses
     are derived at [next-1], or at 0 when [next = 0] (scoped_manager.go:518-560). *)
 Definition info_of_row (r : acct_row) : acct_info :=
   {| ai_name := r_name r; ai_ext := r_ext r; ai_int := r_int r;
-     ai_lastext := N.pred (r_ext r); ai_lastint := N.pred (r_int r) |}.
+     ai_lastext := N.pred (r_ext r); ai_lastint := N.pred (r_int r); ai_kind := r_kind r |}.
 
 (** [Open]/[loadManager]: empty caches; sync state and birthday read from the
     database.  The start block is stored without its time stamp. *)
@@ -176,7 +198,8 @@ Definition reopen (d : disk) : mem :=
 Inductive err :=
   | EAccountNotFound | EDuplicateAccount | EInvalidAccount | ETooManyAddresses
   | EDuplicateAddress | EBlockNotFound | EAddressNotFound | EBirthdayBlockNotSet
-  | EDatabase | EOther.
+  | EDatabase | EOther
+  | EPanic.   (* the call panicked (nil account key); nothing was written *)
 Global Instance err_eq_dec : EqDecision err.
 Proof. solve_decision. Defined.
 
@@ -186,8 +209,10 @@ Inductive ans :=
   | AAcct (a : N)
   | AAddrs (l : list addr)
   | AAddr (x : addr) (a : N) (internal imported used : bool)
+          (ty fp : N)                       (* AddrType(), DerivationInfo().MasterKeyFingerprint *)
   | ALast (x : addr)
   | AProps (nm ext int imp : N)
+           (kind : option wo)               (* IsWatchOnly, AccountPubKey, MasterKeyFingerprint, AddrSchema *)
   | AName (nm : N)
   | AStamp (s : stamp)
   | AHash (h : N)
@@ -221,7 +246,8 @@ Inductive op :=
   | OSetBirthday (t : Z)
   | OSetBdayBlock (s : stamp) (v : bool)
   | OImport (x : addr) (bs : option stamp)  (* ImportPublicKey/PrivateKey/Script *)
-  | ORead (q : query).
+  | ORead (q : query)
+  | ONewAccountWO (nm : N) (w : wo).        (* NewAccountWatchingOnly(name, xpub, fingerprint, schema) *)
 
 (** ** Reads.  A read may fill the caches; it never writes the database. *)
 
@@ -236,8 +262,36 @@ Definition load_acct (d : disk) (m : mem) (a : N) : mem * option acct_info :=
       end
   end.
 
-Definition found (d : disk) (x : addr) : ans :=
-  AAddr x (addr_acct x) (addr_internal x) (addr_imported x) (bool_decide (x ∈ d_used d)).
+(** [accountAddrType]: the account's schema if it has one, else the scope's. *)
+Definition type_of (sch : N * N) (k : option wo) (b : bool) : N :=
+  match k with
+  | Some {| w_schema := Some (e, i) |} => if b then i else e
+  | _ => if b then sch.2 else sch.1
+  end.
+Definition fp_of (k : option wo) : N := match k with Some w => w_fp w | None => 0%N end.
+
+(** The kind a chained address object of account [a] is built with: that of
+    the account's cache entry, which [loadAccountInfo] has filled before any
+    such object is built and which is never evicted.  (The row is consulted
+    only if there is no entry - a case that cannot arise; it keeps the
+    function total without an invariant.) *)
+Definition kind_view (d : disk) (m : mem) (a : N) : option wo :=
+  match m_accts m !! a with
+  | Some ai => ai_kind ai
+  | None => match d_accts d !! a with Some r => r_kind r | None => None end
+  end.
+
+(** A managed address as its getters report it; imported keys use the scope's
+    external type. *)
+Definition found (d : disk) (m : mem) (x : addr) : ans :=
+  let used := bool_decide (x ∈ d_used d) in
+  match x with
+  | Chain a b _ =>
+      let k := kind_view d m a in
+      AAddr x a b false used (type_of (d_schema d) k b) (fp_of k)
+  | ImpKey _ => AAddr x imported_acct false true used (d_schema d).1 0
+  | ImpScript _ => AAddr x imported_acct false true used script_type 0
+  end.
 
 Definition imported_count (d : disk) : N :=
   N.of_nat (size (filter (fun x => addr_imported x = true) (d_addrs d))).
@@ -247,16 +301,16 @@ Definition read (q : query) (d : disk) (m : mem) : mem * ans :=
   | QLookup x =>
       (* Address: the cache, else loadAndCacheAddress; a chained row is turned
          into a managed address through loadAccountInfo (chainAddressRowToManaged) *)
-      if bool_decide (x ∈ m_addrs m) then (m, found d x)
+      if bool_decide (x ∈ m_addrs m) then (m, found d m x)
       else if bool_decide (x ∈ d_addrs d) then
         match x with
         | Chain a _ _ =>
             let '(m1, o) := load_acct d m a in
             match o with
-            | Some _ => (set_m_addrs ({[x]} ∪ m_addrs m1) m1, found d x)
+            | Some _ => (set_m_addrs ({[x]} ∪ m_addrs m1) m1, found d m1 x)
             | None => (m1, AErr EAccountNotFound)
             end
-        | _ => (set_m_addrs ({[x]} ∪ m_addrs m) m, found d x)
+        | _ => (set_m_addrs ({[x]} ∪ m_addrs m) m, found d m x)
         end
       else (m, AErr EAddressNotFound)
   | QLast a b =>
@@ -267,11 +321,11 @@ Definition read (q : query) (d : disk) (m : mem) : mem * ans :=
       | None => (m1, AErr EAccountNotFound)
       end
   | QProps a =>
-      if (a =? imported_acct)%N then (m, AProps name_imported 0 0 (imported_count d))
+      if (a =? imported_acct)%N then (m, AProps name_imported 0 0 (imported_count d) None)
       else
         let '(m1, o) := load_acct d m a in
         match o with
-        | Some ai => (m1, AProps (ai_name ai) (ai_ext ai) (ai_int ai) 0)
+        | Some ai => (m1, AProps (ai_name ai) (ai_ext ai) (ai_int ai) 0 (ai_kind ai))
         | None => (m1, AErr EAccountNotFound)
         end
   | QLookupName nm =>
@@ -344,21 +398,40 @@ Definition set_synced (s : stamp) (t : txst) : txst * ans :=
                 (set_d_hashes hs d) in
     ({| t_disk := d'; t_mem := set_m_synced s (t_mem t); t_cbs := t_cbs t |}, AOk).
 
+(** [newAccount] / [newAccountWatchingOnly]: the next account number, name
+    validation, duplicate test, row and both indices, last account - database
+    only, memory untouched. *)
+Definition new_account (k : option wo) (nm : N) (t : txst) : txst * ans :=
+  let d := t_disk t in
+  let n := (d_lastacct d + 1)%N in
+  if (nm =? name_empty)%N || (nm =? name_imported)%N then (t, AErr EInvalidAccount)
+  else if bool_decide (is_Some (d_nameidx d !! nm)) then (t, AErr EDuplicateAccount)
+  else
+    let d' := set_d_lastacct n
+               (set_d_nameidx (<[nm := n]> (d_nameidx d))
+                 (set_d_ididx (<[n := nm]> (d_ididx d))
+                   (set_d_accts (<[n := {| r_name := nm; r_ext := 0; r_int := 0; r_kind := k |}]> (d_accts d)) d))) in
+    ({| t_disk := d'; t_mem := t_mem t; t_cbs := t_cbs t |}, AAcct n).
+
+(** The row update of [RenameAccount] (one arm of its type switch per kind;
+    both re-put the row with the new name and leave everything else). *)
+Definition rename_rows (a nm : N) (r : acct_row) (d : disk) : disk :=
+  set_d_accts (<[a := row_set_name nm r]> (d_accts d))
+    (set_d_nameidx (<[nm := a]> (delete (r_name r) (d_nameidx d)))
+      (set_d_ididx (<[a := nm]> (d_ididx d)) d)).
+Definition rename_switch (a nm : N) (r : acct_row) (d : disk) : disk :=
+  match r_kind r with
+  | None => rename_rows a nm r d        (* case *dbDefaultAccountRow *)
+  | Some _ => rename_rows a nm r d      (* case *dbWatchOnlyAccountRow *)
+  end.
+Global Arguments rename_switch : simpl never.
+
 Definition step (rb : bool) (o : op) (t : txst) : txst * ans :=
   let d := t_disk t in
   let m := t_mem t in
   match o with
-  | ONewAccount nm =>
-      (* NewAccount/newAccount: database only, memory untouched *)
-      let k := (d_lastacct d + 1)%N in
-      if (nm =? name_empty)%N || (nm =? name_imported)%N then (t, AErr EInvalidAccount)
-      else if bool_decide (is_Some (d_nameidx d !! nm)) then (t, AErr EDuplicateAccount)
-      else
-        let d' := set_d_lastacct k
-                   (set_d_nameidx (<[nm := k]> (d_nameidx d))
-                     (set_d_ididx (<[k := nm]> (d_ididx d))
-                       (set_d_accts (<[k := {| r_name := nm; r_ext := 0; r_int := 0 |}]> (d_accts d)) d))) in
-        ({| t_disk := d'; t_mem := m; t_cbs := t_cbs t |}, AAcct k)
+  | ONewAccount nm => new_account None nm t
+  | ONewAccountWO nm w => new_account (Some w) nm t
   | ORename a nm =>
       (* RenameAccount: rows first, then the cached name - before commit *)
       if (a =? imported_acct)%N then (t, AErr EInvalidAccount)
@@ -368,9 +441,9 @@ Definition step (rb : bool) (o : op) (t : txst) : txst * ans :=
         match d_accts d !! a with
         | None => (t, AErr EAccountNotFound)
         | Some r =>
-            let d' := set_d_accts (<[a := row_set_name nm r]> (d_accts d))
-                       (set_d_nameidx (<[nm := a]> (delete (r_name r) (d_nameidx d)))
-                         (set_d_ididx (<[a := nm]> (d_ididx d)) d)) in
+            (* type switch on the row kind; the cached name is updated after
+               the switch, for both kinds *)
+            let d' := rename_switch a nm r d in
             let m' := match m_accts m !! a with
                       | Some ai => set_m_accts (<[a := set_name nm ai]> (m_accts m)) m
                       | None => m end in
@@ -411,6 +484,10 @@ Definition step (rb : bool) (o : op) (t : txst) : txst * ans :=
           if (last <? i)%N then ({| t_disk := d; t_mem := m1; t_cbs := t_cbs t |}, AOk)
           else if (max_addrs <? last)%N
           then ({| t_disk := d; t_mem := m1; t_cbs := t_cbs t |}, AErr ETooManyAddresses)
+          else if bool_decide (is_Some (ai_kind ai))
+          then (* inverted watch-only test (scoped_manager.go: acctKeyPriv != nil): while
+                  unlocked the nil private key of a watch-only account is dereferenced *)
+               ({| t_disk := d; t_mem := m1; t_cbs := t_cbs t |}, AErr EPanic)
           else
             let cnt := (last - i + 1)%N in
             match put_chain a b i cnt d with
@@ -506,8 +583,8 @@ Definition opened (d : disk) : state := {| disk_of := d; mem_of := reopen d |}.
 
 (** The database [waddrmgr.Create] leaves for one scope: the default account,
     the reserved imported account in the two indices, synced to genesis. *)
-Definition created (genesis_hash : N) (genesis_time birthday : Z) : disk :=
-  {| d_accts := {[ 0%N := {| r_name := name_default; r_ext := 0; r_int := 0 |} ]};
+Definition created (sch : N * N) (genesis_hash : N) (genesis_time birthday : Z) : disk :=
+  {| d_accts := {[ 0%N := {| r_name := name_default; r_ext := 0; r_int := 0; r_kind := None |} ]};
      d_nameidx := {[ name_default := 0%N; name_imported := imported_acct ]};
      d_ididx := {[ 0%N := name_default; imported_acct := name_imported ]};
      d_lastacct := 0;
@@ -516,7 +593,7 @@ Definition created (genesis_hash : N) (genesis_time birthday : Z) : disk :=
      d_hashes := {[ 0%Z := genesis_hash ]};
      d_start := (0%Z, genesis_hash);
      d_birthday := birthday;
-     d_bdayblock := None; d_bdayverified := false |}.
+     d_bdayblock := None; d_bdayverified := false; d_schema := sch |}.
 
 (** ** The trigger patterns K (decidable, on the history alone)
 
@@ -549,7 +626,7 @@ Fixpoint abort_k (rb armed issued : bool) (ops : list op) : bool :=
       | ORename _ _ | OExtend _ _ _ | OSetSynced _ | OSetSyncedNil
       | OSetBirthday _ | OImport _ _ => true
       | ONext _ _ _ => rb || armed || abort_k rb armed true r
-      | ONewAccount _ => abort_k rb true issued r
+      | ONewAccount _ | ONewAccountWO _ _ => abort_k rb true issued r
       | ORead (QLookup _) => issued || armed || abort_k rb armed issued r
       | _ => (armed && loads_cache o) || abort_k rb armed issued r
       end
@@ -561,7 +638,7 @@ Fixpoint abort_k_idx (armed : bool) (ops : list op) : bool :=
   | o :: r =>
       match o with
       | OExtend _ _ _ => true
-      | ONewAccount _ => abort_k_idx true r
+      | ONewAccount _ | ONewAccountWO _ _ => abort_k_idx true r
       | ONext _ _ _ => armed || abort_k_idx armed r
       | _ => (armed && loads_cache o) || abort_k_idx armed r
       end
